@@ -17,7 +17,10 @@ CLAIMS = {
              "every gate-level schedule of small graphs and seeded schedules of larger ones, each execution is "
              "validated by TLC as a behaviour of CopyGraph.tla (L2) and judged by the monitor CopyMon.tla (L3): "
              "success implies every non-foreign reachable node present with identical bytes and the reference "
-             "resolving to the returned root.",
+             "resolving to the returned root. Sources: memory, OCI layout, a real remote.Repository over the in-process "
+             "registry (Referrers API or tag schema); destinations: memory, OCI layout, file store, remote.Repository, the "
+             "last also with blob mounting from the source repository (MountFrom lists that succeed at once, after a "
+             "failing repository, or not at all) and OnMounted.",
         note="Trusted: TLC, SHA-256 as ideal hash, the JSON codecs, testing/synctest's durable-blocking detection, "
              "memory stores as environment. Schedules are enumerated at the granularity of storage operations and "
              "callbacks.",
